@@ -236,7 +236,16 @@ def l2_twins(ctx):
         if a != b:
             bad += 1
             p, q = by[oa.split(" ")[0]]
-            ctx.violation("order-dependent-behaviour", "op %s: %s vs (reordered program) %s" % (oa[:120], ra[:200], rb[:200]),
+            cls = "order-dependent-behaviour"
+            if oa.split(" ")[1] in ("reply", "rt", "submsg"):
+                # which reply table entry the operation addresses; a `#[sv::payload(raw)]` marker on one only of its two merged methods?
+                ent = corpus.reply_entries(p)
+                ia = int(oa.split(" ")[2])
+                if ia < len(ent):
+                    marks = {bool(a_.get("payload_raw")) for m_ in ent[ia]["order"] for a_ in m_["args"] if a_.get("payload_raw") or a_.get("echo_raw")}
+                    if marks == {True, False}:
+                        cls = "one-sided-raw-payload-marker"
+            ctx.violation(cls, "op %s: %s vs (reordered program) %s" % (oa[:120], ra[:200], rb[:200]),
                           {"order_a": corpus.render_module(p), "order_b": corpus.render_module(q), "op_a": oa, "op_b": ob})
     ctx.add_stream("L2-twins", len(ops_a) * 2, len(set(ops_a)), samples=ops_a[:2], programs=len(base), oracle_failures=bad)
     ctx.cov["traces_validated_against_impl"] += len(ops_a) * 2
